@@ -1,4 +1,5 @@
 import LenaModel.Lemmas.C04
+import LenaModel.Lemmas.C04Alone
 /-! # C04 — context non-interference between `Split` branches and across accumulators
 
 The property (properties.jsonl, C04) has two sentences.
@@ -36,7 +37,7 @@ theorem split_tokens_disjoint (s : Split σ S C) (hv : s.bufsize ≠ some 0) (hc
     (hup : ∀ t ∈ cellsOf flow, t.1 = upNs) (hnd : (cellsOf flow).Nodup) :
     (((s.runTrace st0 flow).1).map handCells).Pairwise Disj ∧
     (∀ i buf, Ev.hand i buf true ∈ (s.runTrace st0 flow).1 →
-        ∀ t ∈ cellsOf buf, t.1 = copyNs ∧ t ∉ cellsOf flow) ∧
+        ∀ t ∈ cellsOf buf, t.1 = copyNsOf i ∧ t ∉ cellsOf flow) ∧
     (∀ i buf, Ev.hand i buf false ∈ (s.runTrace st0 flow).1 → buf ∈ blocks s.bufsize flow) := by
   rw [runTrace_eq s hv]
   simp only [hc]
@@ -62,7 +63,7 @@ theorem split_tokens_disjoint (s : Split σ S C) (hv : s.bufsize ≠ some 0) (hc
       refine ⟨h.1, fun hin => ?_⟩
       have := hup t hin
       have := h.1
-      simp [upNs, copyNs] at *
+      simp [upNs, copyNsOf] at *
       omega
     · have := hfin _ hmem
       simp [Ev.isHand] at this
@@ -71,5 +72,201 @@ theorem split_tokens_disjoint (s : Split σ S C) (hv : s.bufsize ≠ some 0) (hc
     · exact p2 _ hmem
     · have := hfin _ hmem
       simp [Ev.isHand] at this
+
+/-- **`Split` driven by `fill`** (`Split._fill`, `copy_buf=True`): filling an alias-free flow value by value, two
+different "value bound for a branch" events never share an object; a copy consists of new objects of the
+copy namespace; a value that is not a copy is a value of the flow (handed to the last branch only). -/
+theorem fill_tokens_disjoint (brs : List (Branch σ S C)) (w : World C) (flow : List (Item S))
+    (hup : ∀ t ∈ cellsOf flow, t.1 = upNs) (hnd : (cellsOf flow).Nodup) :
+    ((fillFlow (splitFill true) w brs flow).evs.map handCells).Pairwise Disj ∧
+    (∀ i buf, Ev.hand i buf true ∈ (fillFlow (splitFill true) w brs flow).evs →
+        ∀ t ∈ cellsOf buf, t.1 = copyNsOf i ∧ w.cc ≤ t.2 ∧ t ∉ cellsOf flow) ∧
+    (∀ i buf, Ev.hand i buf false ∈ (fillFlow (splitFill true) w brs flow).evs → ∃ x ∈ flow, buf = [x]) := by
+  obtain ⟨_, h2, h3⟩ := fillFlow_hands (splitFill true) (fun x => [[x]]) (by intro x a ha; simpa using ha)
+    (fun x hx brs w => splitFill_hands x hx brs w) flow brs w hup hnd
+  refine ⟨h3, ?_, ?_⟩
+  · intro i buf hmem t ht
+    have h := (h2 _ hmem) t ht
+    refine ⟨h.1, h.2.1, fun hin => ?_⟩
+    have := hup t hin
+    have := h.1
+    simp [upNs, copyNsOf] at *
+    omega
+  · intro i buf hmem
+    have h := h2 _ hmem
+    simp only [handOK, List.mem_flatMap, List.mem_cons, List.not_mem_nil, or_false] at h
+    obtain ⟨x, hx, rfl⟩ := h
+    exact ⟨x, hx, rfl⟩
+
+/-- **`Zip._fill`**: every branch is handed a deep copy; no two of these copies share an object, and none
+contains an object of the flow. -/
+theorem zip_tokens_disjoint (brs : List (Branch σ S C)) (w : World C) (flow : List (Item S))
+    (hup : ∀ t ∈ cellsOf flow, t.1 = upNs) (hnd : (cellsOf flow).Nodup) :
+    ((fillFlow zipFill w brs flow).evs.map handCells).Pairwise Disj ∧
+    (∀ i buf c, Ev.hand i buf c ∈ (fillFlow zipFill w brs flow).evs →
+        c = true ∧ ∀ t ∈ cellsOf buf, t.1 = copyNsOf i ∧ w.cc ≤ t.2 ∧ t ∉ cellsOf flow) := by
+  obtain ⟨_, h2, h3⟩ := fillFlow_hands zipFill (fun _ => []) (by intro x a ha; simp at ha)
+    (fun x _ brs w => zipFill_hands x brs w) flow brs w hup hnd
+  refine ⟨h3, ?_⟩
+  intro i buf c hmem
+  have h := h2 _ hmem
+  cases c with
+  | false => simp [handOK] at h
+  | true =>
+    refine ⟨rfl, fun t ht => ?_⟩
+    have h := h t ht
+    refine ⟨h.1, h.2.1, fun hin => ?_⟩
+    have := hup t hin
+    have := h.1
+    simp [upNs, copyNsOf] at *
+    omega
+
+/-! ## sentence 1, part (b): every branch computes what it would compute alone -/
+
+/-- **Each branch computes what it would compute alone on a private deep copy of the flow** (`Split.run`,
+`copy_buf=True`, a flow without pre-existing aliasing, every `bufsize`).  Hypotheses on the branches: their
+numbers are distinct, every branch is `Local` (it reads and mutates only objects of its own namespace, objects
+its state refers to and objects it is passed — the locality assumption of the trusted base), and initially
+refers to its own objects only.  Then for every branch `b` there is a *schedule*: for each successive block of
+the flow (until the branch is dropped) a buffer that is either a deep copy of the block consisting of objects
+created for this branch (`SchedOK`), or the block itself, such that **the events of `b` inside the `Split`**
+— the buffers it is handed, every `fill`/`compute`/`request`/`run` invocation with its arguments and outcome,
+every value yielded on its behalf with the contents of its objects at that moment — **are exactly the events of
+`b` run alone** (`aloneTrace`: no other branch exists; every copied buffer holds the contents that the block had
+when the run started, `preload`).  In particular no mutation of data or context performed in another branch is
+visible in `b`. -/
+theorem branch_alone_equiv (s : Split σ S C) (hv : s.bufsize ≠ some 0) (hc : s.copyBuf = true)
+    (st0 : Store C) (flow : List (Item S))
+    (hup : ∀ t ∈ cellsOf flow, t.1 = upNs) (hnd : (cellsOf flow).Nodup)
+    (hids : (s.branches.map (·.id)).Nodup)
+    (hloc : ∀ b ∈ s.branches, Local b.ops (ownNs b.id))
+    (hrefs : ∀ b ∈ s.branches, ∀ t ∈ b.ops.refs b.st, t.1 = ownNs b.id)
+    (b : Branch σ S C) (hb : b ∈ s.branches) :
+    ∃ sched : List (List (Item S) × List (Item S) × Bool),
+      sched.map (·.1) = (blocks s.bufsize flow).take sched.length ∧ (∀ e ∈ sched, SchedOK b.id e) ∧
+      proj b.id (s.runTrace st0 flow).1 = aloneTrace st0 b sched (blocks s.bufsize flow).isEmpty := by
+  obtain ⟨bc1, bc2⟩ := blocks_cells flow.length s.bufsize hv flow (Nat.le_refl _) hnd
+  obtain ⟨pre, suf, hsplit⟩ := List.append_of_mem hb
+  have hothers : ∀ b' ∈ pre ++ suf, b'.id ≠ b.id := by
+    intro b' hb' heq
+    rw [hsplit, List.map_append, List.map_cons, List.nodup_append] at hids
+    obtain ⟨_, h2, h3⟩ := hids
+    rw [List.nodup_cons] at h2
+    rcases List.mem_append.mp hb' with hb' | hb'
+    · exact h3 b'.id (List.mem_map_of_mem hb') b.id (List.mem_cons_self ..) heq
+    · exact h2.1 (by rw [← heq]; exact List.mem_map_of_mem hb')
+  have hfup : ∀ t ∈ (blocks s.bufsize flow).flatMap cellsOf, t.1 = upNs := by
+    intro t ht
+    simp only [List.mem_flatMap] at ht
+    obtain ⟨blk, hblk, ht⟩ := ht
+    exact hup t (bc1 blk hblk t ht)
+  have hsim : Sim b.id st0 [] ((blocks s.bufsize flow).flatMap cellsOf) { st := st0, cc := 0 } s.branches st0 b := by
+    refine ⟨⟨pre, suf, hsplit, ?_⟩, rfl, hloc b hb, ?_, by simp, hfup, fun t _ => ⟨rfl, rfl⟩, fun t _ => rfl⟩
+    · intro b' hb'
+      have hmem : b' ∈ s.branches := by
+        rw [hsplit]
+        rcases List.mem_append.mp hb' with h | h
+        · exact List.mem_append_left _ h
+        · exact List.mem_append_right _ (List.mem_cons_of_mem _ h)
+      have nf := ns_facts b'.id b.id
+      refine ⟨hothers b' hb', hloc b' hmem, fun t ht => ?_⟩
+      have hns := hrefs b' hmem t ht
+      refine ⟨fun hp => ?_, fun hf => nf.2.2.2.1 (by rw [← hns, hfup t hf])⟩
+      rcases hp with hp | hp | hp
+      · exact hothers b' hb' (nf.1.mp (by rw [← hns, hp]))
+      · exact nf.2.2.1 (by rw [← hns, hp])
+      · simp at hp
+    · intro t ht
+      exact Or.inl (hrefs b hb t ht)
+  obtain ⟨sched, r1, r2, r3, r4, r5⟩ := passes_sim b.id st0 (blocks s.bufsize flow) [] { st := st0, cc := 0 }
+    s.branches st0 b hsim bc2
+  refine ⟨sched, r1, r2, ?_⟩
+  rw [runTrace_eq s hv]
+  simp only [hc, aloneTrace]
+  rw [proj_append, r3]
+  congr 1
+  cases hfin : (aloneLife st0 st0 (some b) sched).2.2 with
+  | none => exact finalPass_no_i b.id _ _ _ (r5 hfin)
+  | some b1 =>
+    obtain ⟨_, Ui', hs⟩ := r4 b1 hfin
+    simp only
+    apply finalPass_sim b.id st0 Ui' _ _ _ _ b1 hs
+    intro b' hb'
+    cases hbl : (blocks s.bufsize flow) with
+    | nil => exact Or.inl rfl
+    | cons blk rest =>
+      refine Or.inr (passes_nosource (blocks s.bufsize flow) s.branches { st := st0, cc := 0 } (by simp [hbl]) b' hb')
+
+
+/-! ## sentence 2: what an accumulator yields is new -/
+
+/-- every modelled accumulator except those that yield the filled values by specification -/
+theorem accOps_freshYield (ns : Nat) (k : AccKind) (hk : k ≠ .store ∧ k ≠ .keepLast ∧ k ≠ .reqStore) :
+    FreshYield (accOps ns k) ns (fun s : HSt => s.ctr) := by
+  refine ⟨?_, ?_, ?_⟩
+  · intro st s r
+    cases r with
+    | fill x => simp only [accOps, hOps, hAct, applySteps_nil]; exact accFill_ctr ns k ⟨st, s.ctr⟩ s.acc x
+    | compute => exact (accCompute_fresh ns k hk ⟨st, s.ctr⟩ s.acc).1
+    | request => exact (accCompute_fresh ns k hk ⟨st, s.ctr⟩ s.acc).1
+    | call => simp [accOps, hOps, hAct, mkSrc]
+    | run buf => simp [accOps, hOps, hAct, splitLastCount, runSteps_nil_steps]
+  · intro st s r hr
+    cases r with
+    | fill x => simp [accOps, hOps, hAct, applySteps_nil, cellsOf]
+    | compute => exact (accCompute_fresh ns k hk ⟨st, s.ctr⟩ s.acc).2.1
+    | request => exact (accCompute_fresh ns k hk ⟨st, s.ctr⟩ s.acc).2.1
+    | call => simp [Req.isAcc] at hr
+    | run buf => simp [Req.isAcc] at hr
+  · intro st s r hr
+    cases r with
+    | fill x => simp [accOps, hOps, hAct, applySteps_nil, cellsOf]
+    | compute => exact (accCompute_fresh ns k hk ⟨st, s.ctr⟩ s.acc).2.2
+    | request => exact (accCompute_fresh ns k hk ⟨st, s.ctr⟩ s.acc).2.2
+    | call => simp [Req.isAcc] at hr
+    | run buf => simp [Req.isAcc] at hr
+
+
+
+/-- **Every context yielded by an accumulator's `compute()`/`request()` is new.**  For every accumulator whose
+methods allocate what they yield (`FreshYield`; `accOps_freshYield`: all modelled framework accumulators), for
+every history of `fill`/`compute`/`request` invocations interleaved with arbitrary changes `ext f` of the heap
+by the rest of the program (in-place mutation of anything yielded or filled), in which the values passed to
+`fill` exist when they are passed (`hin`: an object of the accumulator's own namespace has a serial below the
+current allocation counter — a filled value may well be an earlier result): the objects of the values yielded
+by an invocation `e`
+* are pairwise different (two values of one `compute()` do not share a context),
+* are not objects of any value filled before, and
+* are not objects of any value yielded before. -/
+theorem acc_yield_fresh (ops : Ops σ S C) (ns : Nat) (ctr : σ → Nat) (hF : FreshYield ops ns ctr)
+    (h : List (HOp S C)) (st : Store C) (s : σ)
+    (hacc : ∀ r, HOp.req r ∈ h → r.isAcc = true)
+    (hin : ∀ e ∈ runHist ops ctr st s h, ∀ t ∈ e.req.cells, t.1 = ns → t.2 < e.ctr)
+    (pre : List (HEv S)) (e : HEv S) (post : List (HEv S)) (heq : runHist ops ctr st s h = pre ++ e :: post) :
+    (cellsOf e.resp.outs).Nodup ∧
+    ∀ t ∈ cellsOf e.resp.outs, ∀ e' ∈ pre, t ∉ e'.req.cells ∧ t ∉ cellsOf e'.resp.outs := by
+  obtain ⟨h1, _, h3⟩ := acc_yield_fresh_aux ops ns ctr hF h st s hacc hin pre e post heq
+  exact ⟨h1, h3⟩
+
+/-- non-vacuity: `Count("n")`, filled with two upstream values and computed twice, the first result mutated in
+between; the hypotheses hold and the two results are different objects, both different from what was filled -/
+example :
+    let ops := accOps (ownNs 0) (.count "n")
+    let x : HItem := mkItem (.int 1) (some (upNs, 0))
+    let y : HItem := mkItem (.int 2) (some (upNs, 1))
+    let h : List (HOp Skel Lena.Flow.Value) :=
+      [.req (.fill x), .req (.fill y), .req .compute, .ext (fun st => st.set (ownNs 0, 0) (.dict [])), .req .compute]
+    (runHist ops (fun s : HSt => s.ctr) (fun _ => .dict []) {} h).map (fun e => cellsOf e.resp.outs)
+      = [[], [], [(2, 0)], [(2, 1)]] := by
+  decide
+
+/-- `StoreFilled` is outside the second sentence: its documented result *is* the filled values, and the model
+shows it — the yielded value is the very object that was filled -/
+theorem store_yields_filled :
+    let ops := accOps (ownNs 0) .store
+    let x : HItem := mkItem (.int 1) (some (upNs, 0))
+    (runHist ops (fun s : HSt => s.ctr) (fun _ => (.dict [] : Lena.Flow.Value)) {} [.req (.fill x), .req .compute]).map
+      (fun e => cellsOf e.resp.outs) = [[], [(upNs, 0)]] := by
+  decide
 
 end Lena.C04
